@@ -102,6 +102,12 @@ def analyse_tree(cx, fn, rep):
         if is_marker(first):
             rep.ok('TPL-ABS', '%s|hole:%s' % (where, p['s']))
             continue
+        if first == 'Self' and len(segs) == 2 and not is_marker(segs[1]['id']) and kind in ('expr', 'pat', 'call', None) and segs[1]['id'] not in itemnames:
+            # `Self::name` in value position resolves to whatever the type itself calls `name` first: an enum variant, an inherent
+            # function or constant of the user's type — before the trait item the template means
+            rep.bad('TPL-ABS', where, inst, '`%s` in value position is resolved against the user\'s own type first (a variant, inherent fn or const named `%s` wins over the trait item): write `<Self as ::core::..>::%s`' % (
+                p['s'], segs[1]['id'], segs[1]['id']), s.tmpl.file, s.tmpl.line, {'template': s.tmpl.text()[:300], 'kind': kind})
+            continue
         if first in allowed:
             rep.ok('TPL-ABS', '%s|%s' % (where, inst), {'file': s.tmpl.file, 'line': s.tmpl.line, 'path': p['s'], 'why': 'template-local binder / Self / primitive'})
             continue
